@@ -608,6 +608,9 @@ class Watcher(object):
         self._found_wids = {}
 
         for i in range(self.numprocesses - len(self.processes)):
+            if len(self.processes) >= self.numprocesses:
+                # numprocesses was lowered while we were sleeping
+                break
             res = self.spawn_process()
             if res is False:
                 yield self._stop()
